@@ -28,6 +28,16 @@ claim("C03", "exploration", "runtime monitor: brute-force subset oracle + hook H
       "For streams A B^n C (n<=14) and both predicate classes the kept B's, the number of matches and (via hook H1) the uid set of every enumerated combination are compared with brute force over all ordered subsets, under every cap setting; `all` as last step included; VPL form cross-checked by match counts.",
       "Needs hook H1 (cfg varpulis_verif). Which events survive a max_kleene_events truncation is not specified and not checked beyond count/order/membership.", "DESIGN §2 C03")
 
+claim("C04", "exploration", "runtime monitor: differential between combined run and per-key runs of the real engine",
+      "multiset(out(P,S)) == disjoint union of out(P,S|k) over fresh engines, for partitioned sequence programs (incl. .not, all) and every partitioned window kind / window-less aggregate with uid-fingerprint aggregates; keys of one type incl. key-less events.",
+      "Outputs compared by stream name and data fields; wall-clock emission time excluded.", "DESIGN §2 C04")
+claim("C05", "exploration", "runtime invariant monitor on SaseEngine stats after every event",
+      "After every event of adversarial streams and for all five backpressure strategies x max_runs 1-8 x five pattern shapes: runs per partition <= max_runs (tracked by differencing totals), Kleene events and results per completion within caps, no panic (catch_unwind).",
+      "Per-partition counts are derived from public totals; debug-assertion/overflow-check build only.", "DESIGN §2 C05")
+claim("C10", "exploration", "runtime monitor: differential folded vs unfolded AST of the same source (hook H3) through the real evaluator and engine",
+      "Each generated expression is parsed with and without the folding pass and evaluated on events whose fields take 12 value kinds; results must agree in presence, variant and value; disagreements are minimised to the smallest differing sub-expression and classified by folding rule x operand kind; end-to-end lane through .emit/.where/.having.",
+      "Needs hook H3. Cases where the unfolded evaluation panics are C11's subject and are skipped (counted).", "DESIGN §2 C10")
+
 NOT_BUILT = "check not built yet in this session (see DESIGN.md §2 for the planned monitor); nothing is claimed for it"
 
 checks = []
